@@ -207,7 +207,7 @@ def density_filter(r, tier, seed):
                                           f"y=np.asarray(m.sig_out[0].state)\nw={lit(flat(Yw))}\nprint(y); print(w)\nassert y.shape==w.shape and np.allclose(y,w,rtol=0,atol={tol}), np.abs(y-w).max()\nassert np.array_equal(s.state,x)\n")
                     r.check(y.shape == x0.shape and np.allclose(y, flat(Yw), rtol=0, atol=tol), 'DensityFilter: y_i = sum_j max(0,r-d_ij) x_j / sum_j max(0,r-d_ij)', inp, y, flat(Yw), replay_code=code)
                     r.check(np.array_equal(np.asarray(sig.state), x0), 'DensityFilter: input state is not modified', inp, replay_code=code)
-                    r.check(not np.shares_memory(y, np.asarray(sig.state)), 'DensityFilter: output does not alias the input', inp)
+                    r.check(not np.shares_memory(y, np.asarray(sig.state)), 'DensityFilter: output does not alias the input', inp, replay_code=code + 'assert not np.shares_memory(m.sig_out[0].state, s.state)\n')
                     if name not in ('complex',):
                         lo, hi = float(X.min()), float(X.max())
                         r.check(np.all(y >= lo - tol) and np.all(y <= hi + tol), 'DensityFilter: every output within [min x, max x]', inp, [float(y.min()), float(y.max())], [lo, hi], replay_code=code)
@@ -219,7 +219,7 @@ def density_filter(r, tier, seed):
 
 # ---------------------------------------------------------------- FilterConv: radius kernels
 @bound('2D domains {1x1,1x4,4x1,2x3,5x4,3x6} and 3D {1x1x1,3x1x2,1x3x3,3x4x2,4x3x3} [quick] / plus {8x5, 2x9, 5x4x4, 3x3x6} [thorough]; element sizes (1,1,1), (0.5,1,2), (1.2,0.7,1); '
-       'radii {0.4,1,1.5,2,2.6,3.5,9} x relative / absolute units; boundary rules: all symmetric, plus 2 [quick] / 4 [thorough] rotating combinations of symmetric/edge/wrap/constant (mixed only where '
+       'radii {0.4,1,1.5,2,2.6,3.5,9} x relative / absolute units; boundary rules: all symmetric, plus 1 [quick] / 4 [thorough] rotating combinations of symmetric/edge/wrap/constant (mixed only where '
        'pad <= n holds automatically for radius kernels); own cone kernel on +-min(n, ceil(r/h)) elements; fields random/delta/rotating + constant; tol 1e-12*scale')
 def conv_radius(r, tier, seed):
     rng = np.random.default_rng(seed + 21)
@@ -229,16 +229,17 @@ def conv_radius(r, tier, seed):
     unit_sets = [(1.0, 1.0, 1.0), (0.5, 1.0, 2.0), (1.2, 0.7, 1.0)]
     combos = [c for c in itertools.product(MODES, repeat=6)]
     k = 0
-    for g in gs:
+    radii = (0.4, 1, 1.5, 2.0, 2.6, 3.5, 9.0)
+    for gi, g in enumerate(gs):
         n = shape3(g)
-        for units, radius, rel in itertools.product(unit_sets, (0.4, 1, 1.5, 2.0, 2.6, 3.5, 9.0), (True, False)):
-            if rel and units != unit_sets[k % 3] and tier == 'quick':
-                continue   # relative units do not depend on the element size: one element-size set per radius is enough in the quick tier
+        for (ri, radius), rel, (ui, units) in itertools.product(enumerate(radii), (True, False), enumerate(unit_sets)):
+            if tier == 'quick' and ui != (gi + ri) % 3 and (rel or ui == 0):
+                continue   # quick: relative units with one (rotating) element-size set per radius; absolute units with both non-unit sets (+ the rotating one)
             d = pym.DomainDefinition(*g, *units)
             sig = pym.Signal('x', np.zeros(d.nel))
             W = cone_kernel(g, float(radius), None if rel else units)
             sym = ('symmetric',) * 6
-            bc_list = [sym] + [tuple(CONSTS[i] if mname == 'const' else mname for i, mname in enumerate(combos[(977 * (k + j) + 131 * j) % len(combos)])) for j in range(2 if tier == 'quick' else 4)]
+            bc_list = [sym] + [tuple(CONSTS[i] if mname == 'const' else mname for i, mname in enumerate(combos[(977 * (k + j) + 131 * j) % len(combos)])) for j in range(1 if tier == 'quick' else 4)]
             for bcs in bc_list:
                 k += 1
                 kws = kw_source(bcs if bcs != sym or k % 2 else None, radius, rel)
@@ -284,7 +285,7 @@ def rand_kernel(rng, shape, kind):
 
 
 @bound('2D: domain 3x4 (elements 0.5x2), kernels 3x5 (asymmetric, signed; passed as a 2-D array) and 3x1 (1-D array): all 4^4 = 256 combinations of {symmetric, edge, wrap, constant} on the 4 sides '
-       '(z rules rotating, must be ignored); 3D: domain 3x2x2, kernel 3x3x3 asymmetric: all 4^6 = 4096 combinations [thorough] / every 7th (7 is coprime to 4: every side still sees every rule next to every rule of the other sides) plus all single-rule ones [quick]; a different '
+       '(z rules rotating, must be ignored); 3D: domain 3x2x2, kernel 3x3x3 asymmetric: all 4^6 = 4096 combinations [thorough] / every 13th (coprime to 4: every side still sees every rule next to every rule of the other sides) plus all single-rule ones, 1-D kernel on every 3rd combination [quick]; a different '
        'constant on every side; pad <= n on every axis; fields random + delta; tol 1e-12*scale')
 def conv_boundary_modes(r, tier, seed):
     rng = np.random.default_rng(seed + 22)
@@ -301,7 +302,9 @@ def conv_boundary_modes(r, tier, seed):
         for wname, W in Ws:
             Wpass = W[:, :, 0] if wname == '3x5' else (W[:, 0, 0] if wname == '3' else W)
             for ci, combo in enumerate(itertools.product(MODES, repeat=nsides)):
-                if nsides == 6 and tier == 'quick' and ci % 7 and len(set(combo)) > 1:
+                if nsides == 6 and tier == 'quick' and ci % 13 and len(set(combo)) > 1:
+                    continue
+                if wname == '3' and tier == 'quick' and ci % 3:
                     continue
                 if nsides == 4:
                     combo = combo + (MODES[ci % 4], MODES[(ci // 4) % 4])   # z rules on a 2D domain: irrelevant by definition
@@ -320,10 +323,10 @@ def conv_boundary_modes(r, tier, seed):
                         tol = 1e-12 * scale(Yw, X)
                         r.check(y.shape == x0.shape and np.allclose(y, flat(Yw), rtol=0, atol=tol), 'FilterConv(weights): y = kernel * field extended by the rule selected on each of the six boundaries',
                                 dict(inp0, weights=W, x=x0), y, flat(Yw), replay_code=rp_conv(g, units, X, kws, Yw, tol=tol))
-                        r.check(np.array_equal(np.asarray(sig.state), x0), 'FilterConv: input state is not modified', dict(inp0, x=x0))
+                        r.check(np.array_equal(np.asarray(sig.state), x0), 'FilterConv: input state is not modified', dict(inp0, x=x0), replay_code=rp_conv(g, units, X, kws, Yw, tol=tol))
 
 
-@bound('kernels wider than the domain (pad > n) with the same rule on both sides of an axis: domains {2x3, 1x2, 2x1x3, 1x1x1} x kernels {7x1, 5x7, 3x9x1, 5x3x5, 7x7x7(3D only)} '
+@bound('kernels wider than the domain (pad > n) with the same rule on both sides of an axis: domains {2x3, 1x2, 2x1x3, 1x1x1} x kernels {7x1, 5x7, 3x9x1, 5x3x5, 7x7x7(3D only)} (3D quick: 3x9x1 and 5x3x5 on 2x1x3, 7x7x7 on 1x1x1) '
        'x per-axis rule pairs from {symmetric, edge, wrap, constant} (all 4^2 / 4^3 assignments); signed asymmetric kernels; fields random + delta; tol 1e-12*scale')
 def conv_wide_kernels(r, tier, seed):
     rng = np.random.default_rng(seed + 23)
@@ -333,6 +336,8 @@ def conv_wide_kernels(r, tier, seed):
         d = pym.DomainDefinition(*g)
         sig = pym.Signal('x', np.zeros(d.nel))
         shapes = [(7, 1, 1), (5, 7, 1), (3, 9, 1)] + ([(5, 3, 5), (7, 7, 7)] if dim == 3 else [])
+        if tier == 'quick' and dim == 3:
+            shapes = [(3, 9, 1), (5, 3, 5)] if g == (2, 1, 3) else [(7, 7, 7)]
         Xs = [rng.random(n), np.where(np.indices(n).sum(0) == 0, 1.0, 0.0)]
         for shp in shapes:
             W = rand_kernel(rng, shp, 'signed')
@@ -405,7 +410,7 @@ def conv_convexity_volume(r, tier, seed):
 
 # ---------------------------------------------------------------- overrides and histories
 @bound('domains 4x3 (kernels 3x5 and radius 1.5) and 3x2x3 (kernels 5x3x1, 1x3x5; unequal pads per axis): override_values with a slice tuple, an integer-array tuple and a boolean mask; override_padded_values with '
-       'a padded-index box; two overrides on overlapping regions (the later wins); boundary rules all-symmetric and one mixed combination with constants; response sequence x1, x2, x1, '
+       'a padded-index box; two overrides on overlapping regions (the later wins); boundary rules all-symmetric, (wrap, 0.5, edge, symmetric, 1.0, symmetric) and (0, symmetric, 0, 0, 0, 0); response sequence x1, x2, x1, '
        'override added, x1, caller overwrites the returned array, x1; weights array changed by the caller after construction')
 def conv_overrides_histories(r, tier, seed):
     rng = np.random.default_rng(seed + 25)
@@ -422,7 +427,7 @@ def conv_overrides_histories(r, tier, seed):
             kws = kw_source(bcs, radius=None if W is not None else 1.5, W=W)
             inp0 = dict(g=g, bcs=bcs, kernel='radius 1.5' if W is None else W.shape)
             head = REPLAY_HEAD + (f"g={g}; n=(g[0],g[1],max(g[2],1))\nd=pym.DomainDefinition(*g)\nx1={lit(flat(x1))}\nx2={lit(flat(x2))}\ns=pym.Signal('x',x1.copy())\n"
-                                  + ("" if W is None else f"W=np.array({W.tolist()})\n") + f"m=pym.FilterConv(s,domain=d,{kw_source(bcs, radius=None if W is not None else 1.5)}" + ("" if W is None else ",weights=W") + ")\n"
+                                  + ("" if W is None else f"W=np.array({W.tolist()})\n") + f"m=pym.FilterConv(s,domain=d,{kw_source(bcs, radius=None if W is not None else 1.5)}" + ("" if W is None else ",weights=W") + ")\n" + ("" if W is None else "W*=-3.0   # the caller re-uses its kernel array\n") +
                                   "def ok(w):\n    y=m.sig_out[0].state\n    print(np.abs(y-w).max())\n    return np.allclose(y,w,rtol=0,atol=1e-12)\n")
             ovr = []
             ovr_src = ''
@@ -440,7 +445,8 @@ def conv_overrides_histories(r, tier, seed):
                 full = head + code.replace('@W@', lit(Yw))
                 r.check(np.allclose(y, Yw, rtol=0, atol=1e-12), f'FilterConv call sequence, step "{label}": result = kernel * extended current input with the overrides registered so far', dict(inp0, step=label), y, Yw, replay_code=full)
                 r.check(np.array_equal(np.asarray(sig.state), before) and np.array_equal(before, flat(X)), f'FilterConv call sequence, step "{label}": input state is not modified', dict(inp0, step=label), replay_code=full)
-                r.check(not np.shares_memory(y, np.asarray(sig.state)), f'FilterConv call sequence, step "{label}": output does not alias the input', dict(inp0, step=label))
+                r.check(not np.shares_memory(y, np.asarray(sig.state)), f'FilterConv call sequence, step "{label}": output does not alias the input', dict(inp0, step=label),
+                        replay_code=head + "m.response()\nassert not np.shares_memory(m.sig_out[0].state, s.state)\n")
                 return y
 
             try:
@@ -448,51 +454,71 @@ def conv_overrides_histories(r, tier, seed):
             except Exception as e:
                 r.check(False, 'FilterConv construction raises for an admissible configuration', inp0, repr(e)[:300], replay_code=head)
                 continue
-            r.check(list(m.pad_sizes) == pads, 'pad_sizes (the origin of padded coordinates) = half kernel widths', inp0, list(m.pad_sizes), pads)
-            if Wuser is not None:
-                Wuser *= -3.0   # the caller re-uses its kernel array: the module must keep the kernel it was given
-            step('first', x1, "if 'W' in dir(): W*=-3.0\nm.response()\nassert ok(@W@)\nassert np.array_equal(s.state,x1)\n")
-            sig.state = flat(x2)
-            step('new input', x2, "m.response()\ns.state=x2.copy()\nm.response()\nassert ok(@W@)\n")
-            sig.state = flat(x1)
-            step('back to first input', x1, "m.response()\ns.state=x2.copy()\nm.response()\ns.state=x1.copy()\nm.response()\nassert ok(@W@)\n")
-            # overrides in domain coordinates: slice tuple, integer arrays, boolean mask; then one in padded coordinates; overlapping regions
-            sl = (slice(0, 2), slice(None), slice(None))
-            m.override_values(sl, 0.9)
-            ovr.append(('domain', sl, 0.9))
-            ovr_src += "m.override_values((slice(0,2),slice(None),slice(None)),0.9)\n"
-            step('override_values(slices)', x1, "m.response()\n" + ovr_src + "m.response()\nassert ok(@W@)\nassert np.array_equal(s.state,x1)\n")
-            ia = (np.array([0, n[0] - 1]), np.array([n[1] - 1, 0]), np.array([0, n[2] - 1]))
-            m.override_values(ia, -0.4)
-            ovr.append(('domain', ia, -0.4))
-            ovr_src += f"m.override_values((np.array({ia[0].tolist()}),np.array({ia[1].tolist()}),np.array({ia[2].tolist()})),-0.4)\n"
-            step('override_values(integer arrays) over an earlier override', x1, ovr_src + "m.response()\nassert ok(@W@)\n")
-            mask = np.indices(n).sum(0) % 3 == 1
-            m.override_values(mask, 0.2)
-            ovr.append(('domain', mask, 0.2))
-            ovr_src += f"m.override_values(np.array({mask.tolist()}),0.2)\n"
-            sig.state = flat(x2)
-            step('override_values(boolean mask), new input', x2, ovr_src + "s.state=x2.copy()\nm.response()\nassert ok(@W@)\n")
-            pr = [np.arange(0, pads[0] + 1), np.arange(pads[1], pads[1] + n[1]), np.arange(0, n[2] + 2 * pads[2])]
-            box = tuple(np.meshgrid(*pr, indexing='ij'))
-            m.override_padded_values(box, 1.5)
-            ovr.append(('padded', box, 1.5))
-            ovr_src += f"m.override_padded_values(tuple(np.meshgrid(np.arange(0,{pads[0] + 1}),np.arange({pads[1]},{pads[1] + n[1]}),np.arange(0,{n[2] + 2 * pads[2]}),indexing='ij')),1.5)\n"
-            y = step('override_padded_values(box reaching into the domain)', x2, ovr_src + "s.state=x2.copy()\nm.response()\nassert ok(@W@)\n")
-            y[:] = 7.0
-            r.check(np.array_equal(np.asarray(sig.state), flat(x2)), 'overwriting the returned array does not change the input', inp0)
-            sig.state = flat(x1)
-            step('after caller overwrote the output', x1, ovr_src + "s.state=x2.copy()\nm.response()\nm.sig_out[0].state[:]=7.0\ns.state=x1.copy()\nm.response()\nassert ok(@W@)\n")
-            m.sig_out[0].sensitivity = rng.random(d.nel)
-            try:
-                m.sensitivity()
-            except Exception as e:
-                r.check(False, 'FilterConv.sensitivity() raises', inp0, repr(e)[:300])
-            m.reset()
-            step('after sensitivity() and reset()', x1, ovr_src + "m.response()\nm.sig_out[0].sensitivity=np.ones(d.nel)\nm.sensitivity()\nm.reset()\nm.response()\nassert ok(@W@)\nassert np.array_equal(s.state,x1)\n")
+            with guard(r, inp0, head):
+                r.check(list(m.pad_sizes) == pads, 'pad_sizes (the origin of padded coordinates) = half kernel widths', inp0, list(m.pad_sizes), pads, replay_code=head + f"assert list(m.pad_sizes)=={pads}, m.pad_sizes\n")
+                if Wuser is not None:
+                    Wuser *= -3.0   # the caller re-uses its kernel array: the module must keep the kernel it was given
+                step('first', x1, "m.response()\nassert ok(@W@)\nassert np.array_equal(s.state,x1)\n")
+                sig.state = flat(x2)
+                step('new input', x2, "m.response()\ns.state=x2.copy()\nm.response()\nassert ok(@W@)\nassert np.array_equal(s.state,x2)\n")
+                sig.state = flat(x1)
+                step('back to first input', x1, "m.response()\ns.state=x2.copy()\nm.response()\ns.state=x1.copy()\nm.response()\nassert ok(@W@)\nassert np.array_equal(s.state,x1)\n")
+                # overrides in domain coordinates: slice tuple, integer arrays, boolean mask; then one in padded coordinates; overlapping regions
+                sl = (slice(0, 2), slice(None), slice(None))
+                m.override_values(sl, 0.9)
+                ovr.append(('domain', sl, 0.9))
+                ovr_src += "m.override_values((slice(0,2),slice(None),slice(None)),0.9)\n"
+                step('override_values(slices)', x1, "m.response()\n" + ovr_src + "m.response()\nassert ok(@W@)\nassert np.array_equal(s.state,x1)\n")
+                ia = (np.array([0, n[0] - 1]), np.array([n[1] - 1, 0]), np.array([0, n[2] - 1]))
+                m.override_values(ia, -0.4)
+                ovr.append(('domain', ia, -0.4))
+                ovr_src += f"m.override_values((np.array({ia[0].tolist()}),np.array({ia[1].tolist()}),np.array({ia[2].tolist()})),-0.4)\n"
+                step('override_values(integer arrays) over an earlier override', x1, ovr_src + "m.response()\nassert ok(@W@)\nassert np.array_equal(s.state,x1)\n")
+                mask = np.indices(n).sum(0) % 3 == 1
+                m.override_values(mask, 0.2)
+                ovr.append(('domain', mask, 0.2))
+                ovr_src += f"m.override_values(np.array({mask.tolist()}),0.2)\n"
+                sig.state = flat(x2)
+                step('override_values(boolean mask), new input', x2, ovr_src + "s.state=x2.copy()\nm.response()\nassert ok(@W@)\nassert np.array_equal(s.state,x2)\n")
+                pr = [np.arange(0, pads[0] + 1), np.arange(pads[1], pads[1] + n[1]), np.arange(0, n[2] + 2 * pads[2])]
+                box = tuple(np.meshgrid(*pr, indexing='ij'))
+                m.override_padded_values(box, 1.5)
+                ovr.append(('padded', box, 1.5))
+                ovr_src += f"m.override_padded_values(tuple(np.meshgrid(np.arange(0,{pads[0] + 1}),np.arange({pads[1]},{pads[1] + n[1]}),np.arange(0,{n[2] + 2 * pads[2]}),indexing='ij')),1.5)\n"
+                y = step('override_padded_values(box reaching into the domain)', x2, ovr_src + "s.state=x2.copy()\nm.response()\nassert ok(@W@)\nassert np.array_equal(s.state,x2)\n")
+                y[:] = 7.0
+                r.check(np.array_equal(np.asarray(sig.state), flat(x2)), 'overwriting the returned array does not change the input', inp0, replay_code=head + "s.state=x2.copy()\nm.response()\nm.sig_out[0].state[:]=7.0\nassert np.array_equal(s.state,x2)\n")
+                sig.state = flat(x1)
+                step('after caller overwrote the output', x1, ovr_src + "s.state=x2.copy()\nm.response()\nm.sig_out[0].state[:]=7.0\ns.state=x1.copy()\nm.response()\nassert ok(@W@)\n")
+                m.sig_out[0].sensitivity = rng.random(d.nel)
+                try:
+                    m.sensitivity()
+                except Exception as e:
+                    r.check(False, 'FilterConv.sensitivity() raises', inp0, repr(e)[:300], replay_code=head + "m.response()\nm.sig_out[0].sensitivity=np.ones(d.nel)\nm.sensitivity()\n")
+                m.reset()
+                step('after sensitivity() and reset()', x1, ovr_src + "m.response()\nm.sig_out[0].sensitivity=np.ones(d.nel)\nm.sensitivity()\nm.reset()\nm.response()\nassert ok(@W@)\nassert np.array_equal(s.state,x1)\n")
 
 
-@bound('integer-valued density fields (0/1 designs stored as int64 / bool arrays cast to int) on 4x3 and 3x3x2 with radius 1.5 and a 3x3 kernel: FilterConv must return the convolution '
+@bound('argument validation on a 3x3 domain: exactly one of radius / weights; every kernel dimension odd (shapes 2x3, 3x4, 3x3x2 rejected; 1, 3, 1x3, 3x1x1, 5x3 accepted)')
+def conv_arguments(r, tier, seed):
+    d = pym.DomainDefinition(3, 3)
+    bad = [dict(), dict(radius=1.5, weights=np.ones((3, 3))), dict(weights=np.ones((2, 3))), dict(weights=np.ones((3, 4))), dict(weights=np.ones((3, 3, 2)))]
+    good = [dict(weights=np.ones(1)), dict(weights=np.ones(3)), dict(weights=np.ones((1, 3))), dict(weights=np.ones((3, 1, 1))), dict(weights=np.ones((5, 3))), dict(radius=0.2)]
+    for kw, want in [(k, False) for k in bad] + [(k, True) for k in good]:
+        r.case((repr(kw), want))
+        try:
+            m = pym.FilterConv(pym.Signal('x', np.ones(d.nel)), domain=d, **kw)
+            m.response()
+            ok = bool(np.allclose(m.sig_out[0].state, np.sum(kw['weights']) if 'weights' in kw else 1.0, rtol=0, atol=1e-12))
+            got = True
+        except (ValueError, AssertionError) as e:
+            got, ok = False, True
+        src = ','.join(f"{k}=np.ones({np.shape(v)})" if k == 'weights' else f"{k}={v!r}" for k, v in kw.items())
+        r.check(got == want and ok, 'FilterConv accepts exactly the admissible kernel arguments (and maps a field of ones to the kernel sum)', dict(kwargs=repr(kw), admissible=want), got, want,
+                replay_code=REPLAY_HEAD + f"d=pym.DomainDefinition(3,3)\ntry:\n    m=pym.FilterConv(pym.Signal('x',np.ones(9)),domain=d,{src})\n    m.response()\n    got=True\nexcept (ValueError, AssertionError):\n    got=False\nassert got=={want}\n")
+
+
+@bound('integer-valued density fields (0/1 designs stored as int64 / int32) on 4x3 and 3x3x2 with radius 1.5 and a 3x3 kernel: FilterConv must return the convolution '
        '(as DensityFilter does), not a truncated integer array', finding='C09-int-field-truncated')
 def conv_integer_field(r, tier, seed):
     rng = np.random.default_rng(seed + 26)
@@ -534,16 +560,16 @@ def conv_other_dtypes(r, tier, seed):
                     x0 = flat(X)
                     Yw = flat(ref_filterconv(X.astype(complex if name == 'complex' else float), W, bcs))
                     kws = kw_source(bcs, kw.get('radius'), None, kw.get('weights'))
-                    code = REPLAY_HEAD + f"d=pym.DomainDefinition(*{g})\nx={lit(x0)}\nm=pym.FilterConv(pym.Signal('x',x.copy()),domain=d,{kws})\nm.response()\ny=m.sig_out[0].state\nw={lit(Yw)}\nprint(y.dtype,np.abs(y-w).max())\nassert np.allclose(y,w,rtol=0,atol={tol})\n"
+                    code = REPLAY_HEAD + f"d=pym.DomainDefinition(*{g})\nx={lit(x0)}\ns=pym.Signal('x',x.copy())\nm=pym.FilterConv(s,domain=d,{kws})\nm.response()\ny=m.sig_out[0].state\nw={lit(Yw)}\nprint(y.dtype,np.abs(y-w).max())\nassert np.allclose(y,w,rtol=0,atol={tol})\nassert np.array_equal(s.state,x)\n"
                     with guard(r, dict(g=g, bcs=bcs, field=name), code):
                         sig = pym.Signal('x', x0.copy())
                         m = pym.FilterConv(sig, domain=d, **kw, **bc_kwargs(bcs))
                         m.response()
                         y = np.asarray(m.sig_out[0].state)
                         r.check(y.shape == Yw.shape and np.allclose(y, Yw, rtol=0, atol=tol * scale(Yw)), f'FilterConv of a {name} field = kernel * extended field', dict(g=g, bcs=bcs, field=name, x=x0), y, Yw, replay_code=code)
-                        r.check(np.array_equal(np.asarray(sig.state), x0), 'FilterConv: input state is not modified', dict(g=g, bcs=bcs, field=name))
+                        r.check(np.array_equal(np.asarray(sig.state), x0), 'FilterConv: input state is not modified', dict(g=g, bcs=bcs, field=name), replay_code=code)
 
 
 CHECKS = [('density_filter', density_filter), ('conv_radius', conv_radius), ('conv_boundary_modes', conv_boundary_modes), ('conv_wide_kernels', conv_wide_kernels),
-          ('conv_convexity_volume', conv_convexity_volume), ('conv_overrides_histories', conv_overrides_histories), ('conv_other_dtypes', conv_other_dtypes),
+          ('conv_convexity_volume', conv_convexity_volume), ('conv_overrides_histories', conv_overrides_histories), ('conv_other_dtypes', conv_other_dtypes), ('conv_arguments', conv_arguments),
           ('conv_integer_field', conv_integer_field)]
